@@ -302,7 +302,7 @@ def run(rng, res, tier, shard, nshards):
         hist = gen_history(rng, rng.randint(1, 80), na)
         f = run_history_safe(nn, na, hist, res)
         res.case(digest([nn, na, hist]))
-        if res.evaluations % 499 == 7:
+        if len(res.samples) < 3 and len(hist) >= 6:
             res.sample({'nodes': nn, 'attackers': na, 'history': hist[:14]})
         if f:
             res.violation(f[0], f[1], {'kind': 'history', 'nodes': nn, 'attackers': na, 'history': hist})
